@@ -116,6 +116,29 @@ theorem recycle_lex_not_latest :
     recycleChoice ns "m".toList "pickle".toList = some "m~100.pickle".toList := by
   decide +kernel
 
+/-- **The documented sequence of names**: `k` successive outputs of one model and extension
+into a directory that holds no such file are called `name.ext, name~00.ext, name~01.ext, …`
+(three digits from the 102nd on), in this order. -/
+theorem same_name_sequence {γ} (d : Dir γ) (name ext : Name) (cs : List γ)
+    (h0 : ∀ j, candidate name ext j ∉ names d) :
+    (run d (cs.map fun c => Op.write name ext c)).2 =
+      (List.range cs.length).map fun j => some (candidate name ext j) := by
+  have hE : ExactlyFirst d name ext 0 := fun j => ⟨fun h => absurd h (h0 j), fun h => by omega⟩
+  have := (same_name_run name ext cs d 0 hE).1
+  rw [this, List.range_eq_range']
+
+/-- **Repaired recycling reads the results saved last**: after `k ≥ 1` such outputs the
+file chosen by `recycleChoice` (largest index among the existing files of the sequence) is
+the one written last. -/
+theorem recycle_reads_last {γ} (d : Dir γ) (name ext : Name) (cs : List γ) (hk : 0 < cs.length)
+    (h0 : ∀ j, candidate name ext j ∉ names d) :
+    recycleChoice (names (run d (cs.map fun c => Op.write name ext c)).1) name ext =
+      some (candidate name ext (cs.length - 1)) := by
+  have hE : ExactlyFirst d name ext 0 := fun j => ⟨fun h => absurd h (h0 j), fun h => by omega⟩
+  obtain ⟨_, h2, h3⟩ := same_name_run name ext cs d 0 hE
+  rw [Nat.zero_add] at h2
+  exact recycleChoice_last _ name ext cs.length hk (by rw [h3]; omega) h2
+
 /-! ## parameter file -/
 
 open Params
